@@ -255,13 +255,42 @@ class Evil(object):
         return 'Evil(%r)' % self.mode
 
 
-FOREIGN_KINDS = ['none', 'str', 'int', 'float', 'object', 'tuple', 'notimpl', 'true', 'false', 'raise']
+FOREIGN_KINDS = ['none', 'str', 'int', 'float', 'object', 'tuple', 'notimpl', 'true', 'false', 'raise',
+                 # objects whose own __eq__ answers NotImplemented for a signature / parameter
+                 'emptystr', 'bytes', 'list', 'dict', 'notimplemented', 'ellipsis', 'empty-marker', 'class',
+                 'function', 'bound-arguments']
+# the other level's objects: a parameter is foreign to a signature and vice versa
+CROSS_KINDS = {'s': ['plain-parameter', 'upgraded-parameter'], 'p': ['plain-signature', 'upgraded-signature']}
 FOREIGN_BEH = {'true': '(FConst true)', 'false': '(FConst false)', 'raise': 'FRaise'}
 
 
+def foreign_kinds(level):
+    return FOREIGN_KINDS + CROSS_KINDS[level]
+
+
 def build_foreign(kind):
-    return {'none': None, 'str': '(a, b=1)', 'int': 0, 'float': 3.5, 'tuple': ('a', 1)}.get(kind) \
-        if kind in ('none', 'str', 'int', 'float', 'tuple') else (object() if kind == 'object' else Evil(kind))
+    if kind in ('notimpl', 'true', 'false', 'raise'):
+        return Evil(kind)
+    if kind == 'object':
+        return object()
+    if kind == 'list':
+        return ['a', 1]
+    if kind == 'dict':
+        return {'a': 1}
+    if kind == 'bound-arguments':
+        return inspect.Signature([P('a', P.POSITIONAL_OR_KEYWORD, default=1)]).bind_partial()
+    if kind == 'plain-parameter':
+        return P('a', P.POSITIONAL_OR_KEYWORD, default=1, annotation=11)
+    if kind == 'upgraded-parameter':
+        return UP('a', P.POSITIONAL_OR_KEYWORD, default=1, annotation=11,
+                  upgraded_annotation=S._PreEvaluatedAnnotation(11))
+    if kind == 'plain-signature':
+        return inspect.Signature([P('a', P.POSITIONAL_OR_KEYWORD)])
+    if kind == 'upgraded-signature':
+        return US([UP('a', P.POSITIONAL_OR_KEYWORD)])
+    return {'none': None, 'str': '(a, b=1)', 'int': 0, 'float': 3.5, 'tuple': ('a', 1), 'emptystr': '',
+            'bytes': b'(a)', 'notimplemented': NotImplemented, 'ellipsis': Ellipsis, 'empty-marker': P.empty,
+            'class': inspect.Signature, 'function': c14_boom}[kind]
 
 
 class FalsyAnn(S.UpgradedAnnotation):
@@ -603,6 +632,372 @@ def h7(x, *args, **kwargs):
 NAMES = ['h0', 'h1', 'h2', 'h3', 'h4', 'h4b', 'h5', 'h6', 'h7']
 '''
 
+# Twin namespaces: ONE source executed twice (a plugin loaded under two names, a module
+# re-imported for test isolation, runpy, exec'd namespaces): two functions whose __globals__
+# are DIFFERENT dicts with the same keys and equal values -- up to a module-level object whose
+# own == does not answer a bool (raises, answers an object of ambiguous truth, or leads back to
+# the signatures being compared).  The annotations cannot be evaluated (TYPE_CHECKING-only
+# name), so the comparison has to decide without evaluating; whatever it looks at instead, it
+# must answer a bool.  `mixed` also has an annotation that does evaluate.
+class Ambiguous(object):
+    """what an element-wise == returns (numpy arrays, pandas objects, SQL expressions)"""
+    def __init__(self, items):
+        self.items = list(items)
+
+    def __bool__(self):
+        raise ValueError('the truth value of an element-wise comparison is ambiguous')
+
+    def __repr__(self):
+        return 'Ambiguous(%r)' % (self.items,)
+
+
+class Hostile(object):
+    """a module-level constant whose == against its twin does not answer a bool"""
+    def __init__(self, mode, *items):
+        self.mode, self.items = mode, items
+
+    def __eq__(self, other):
+        if not isinstance(other, Hostile):
+            return NotImplemented
+        if self.mode == 'raise':
+            raise ArithmeticError('hostile ==')
+        return Ambiguous(a == b for a, b in zip(self.items, other.items))
+
+    def __ne__(self, other):
+        if not isinstance(other, Hostile):
+            return NotImplemented
+        if self.mode == 'raise':
+            raise ArithmeticError('hostile !=')
+        return Ambiguous(a != b for a, b in zip(self.items, other.items))
+
+    __hash__ = object.__hash__
+
+    def __repr__(self):
+        return 'Hostile(%r)' % (self.mode,)
+
+
+TWIN_HEAD = '''from __future__ import annotations
+from typing import TYPE_CHECKING
+if TYPE_CHECKING:
+    from nowhere import Ctx
+'''
+TWIN_BODY = '''
+def handler(request: Ctx, *args, scale: Ctx = None, **kwargs) -> Ctx: pass
+def mixed(a: int, b: Ctx = 1) -> int: pass
+def fwd(x, *args, **kwargs):
+    return handler(*args, **kwargs)
+NAMES = ['handler', 'mixed', 'fwd']
+'''
+TWIN_FAMILIES = [
+    ('plain', TWIN_HEAD + 'LIMIT = 3\n' + TWIN_BODY),
+    ('ambiguous', TWIN_HEAD + 'WEIGHTS = Hostile("ambiguous", 1.0, 2.0, 3.0)\n' + TWIN_BODY),
+    ('raising', TWIN_HEAD + 'LIMIT = Hostile("raise")\n' + TWIN_BODY),
+    ('snan', TWIN_HEAD + 'import decimal\nLIMIT = decimal.Decimal("sNaN")\n' + TWIN_BODY),
+    ('registry', TWIN_HEAD + '''SIGNATURES = {}
+def register(func):
+    SIGNATURES[func.__name__] = signature(func)
+    return func
+''' + TWIN_BODY.replace('def handler', '@register\ndef handler').replace('def mixed', '@register\ndef mixed')),
+]
+TWIN_OF = {}           # module name -> the module name of its twin
+TWIN_FN = {}           # function id -> the id of the same function in the twin namespace
+TWIN_FIRST_FID = 110   # handler/mixed of family i, side j: 110 + 4*i + 2*j (+1 for mixed)
+
+
+def load_twins(tmp):
+    import sigtools
+    import types
+    out = {}
+    for i, (fam, src) in enumerate(TWIN_FAMILIES):
+        path = os.path.join(tmp, 'c14_twin_%s.py' % fam)
+        with open(path, 'w') as f:
+            f.write(src)
+        names = []
+        for j, side in enumerate('ab'):
+            mod = types.ModuleType('c14_twin')          # the same __name__ on both sides
+            mod.__dict__.update(Hostile=Hostile, signature=sigtools.signature)
+            with warnings.catch_warnings():
+                warnings.simplefilter('ignore')
+                exec(compile(src, path, 'exec'), mod.__dict__)
+            modname = 'c14_twin_%s_%s' % (fam, side)
+            out[modname] = mod
+            names.append(modname)
+            for k, fname in enumerate(('handler', 'mixed')):
+                core.register_fn(getattr(mod, fname), TWIN_FIRST_FID + 4 * i + 2 * j + k)
+        TWIN_OF[names[0]], TWIN_OF[names[1]] = names[1], names[0]
+        for k in (0, 1):
+            fa, fb = TWIN_FIRST_FID + 4 * i + k, TWIN_FIRST_FID + 4 * i + 2 + k
+            TWIN_FN[fa], TWIN_FN[fb] = fb, fa
+    return out
+
+
+def twin_pairs():
+    """[(family, fid of handler in namespace a, fid of handler in namespace b)]"""
+    real_modules()
+    return [(fam, TWIN_FIRST_FID + 4 * i, TWIN_FIRST_FID + 4 * i + 2) for i, (fam, _) in enumerate(TWIN_FAMILIES)]
+
+
+def twin_cases(raw, fa, fb):
+    """[(level, a, b, label)]: the same unevaluable annotation `raw` written in function fa and
+    in its twin fb (same source, another namespace)"""
+    ann = intern_str(raw_str(raw))
+    ua, ub = ('D', raw, fa), ('D', raw, fb)
+    p = mkp('a', 'PK', None, ann, ua, srcs=[fa], deps={fa: 0}, fn=fa)
+    k = mkp('c', 'KO', 0, ann, ua, srcs=[fa], deps={fa: 0}, fn=fa)
+
+    def tw(q):
+        return copy_p(q, ua=A(ub), srcs=[fb], deps={fb: 0}, fn=fb)
+    out = [('p', p, copy_p(p, ua=A(ub)), 'only the namespace of the annotation differs'),
+           ('p', p, tw(p), 'the twin parameter'),
+           ('p', k, tw(k), 'the twin keyword-only parameter'),
+           ('p', p, copy_p(p), 'a copy in the same namespace')]
+    s = mks([p, k], ann, ua, srcs={p['name']: [fa], k['name']: [fa]}, deps={fa: 0})
+    t_all = mks([tw(p), tw(k)], ann, ub, srcs={p['name']: [fb], k['name']: [fb]}, deps={fb: 0})
+    t_par = copy_s(s)
+    t_par['params'][1] = copy_p(k, ua=A(ub))
+    bare = mks([mkp('a', 'PK', srcs=[fa], deps={fa: 0}, fn=fa)], ann, ua, srcs={p['name']: [fa]}, deps={fa: 0})
+    out += [('s', s, copy_s(s, share_params=True, ur=A(ub)), 'only the namespace of the return annotation differs'),
+            ('s', s, t_par, 'only the namespace of one parameter annotation differs'),
+            ('s', s, t_all, 'the twin signature'),
+            ('s', bare, copy_s(bare, ur=A(ub)), 'return annotation only, twin'),
+            ('s', s, copy_s(s), 'a copy in the same namespace')]
+    return out
+
+
+# Section H (harness only, OUTSIDE the model's value domain): annotation VALUES whose own ==
+# does not answer a bool -- element-wise comparing objects (numpy arrays, pandas objects, SQL
+# expressions).  inspect.Parameter.__eq__ hands the result of the annotation comparison back
+# without truth-testing it; the drop-in objects must answer what their plain counterparts
+# answer (True / False / that object) whenever the plain counterparts answer without raising.
+class Elementwise(object):
+    def __init__(self, *items):
+        self.items = items
+
+    def __eq__(self, other):
+        if not isinstance(other, Elementwise):
+            return NotImplemented
+        return Ambiguous(a == b for a, b in zip(self.items, other.items))
+
+    def __ne__(self, other):
+        if not isinstance(other, Elementwise):
+            return NotImplemented
+        return Ambiguous(a != b for a, b in zip(self.items, other.items))
+
+    __hash__ = object.__hash__
+
+    def __repr__(self):
+        return 'Elementwise%r' % (self.items,)
+
+
+class Expr(object):
+    """== builds an expression object (truthy, not a bool), as SQL toolkits do"""
+    def __init__(self, *items):
+        self.items = items
+
+    def __eq__(self, other):
+        if not isinstance(other, Expr):
+            return NotImplemented
+        return Expr('==', self.items, other.items)
+
+    def __ne__(self, other):
+        if not isinstance(other, Expr):
+            return NotImplemented
+        return Expr('!=', self.items, other.items)
+
+    __hash__ = object.__hash__
+
+    def __repr__(self):
+        return 'Expr%r' % (self.items,)
+
+
+HOSTILE_SRC_EAGER = '''
+import functools
+from sigtools import modifiers, specifiers
+SHAPE = Value(3, 4)
+@modifiers.annotate(v=SHAPE)
+def annotated(v, w=1): pass
+@modifiers.annotate(SHAPE, w=Value(1))
+def annotated_ret(v, w=1): pass
+def eager(v: SHAPE, /, w: Value(1) = 1, *args: SHAPE, k: SHAPE = None, **kw: Value()) -> int: pass
+def ret_only(a, b=2) -> SHAPE: pass
+def one(v: SHAPE): pass
+def fwd(x, *args, **kwargs):
+    return eager(*args, **kwargs)
+@specifiers.forwards_to_function(one)
+def fwd2(y, *args, **kwargs): pass
+class C:
+    def meth(self, q: SHAPE, r=2): pass
+c = C()
+part = functools.partial(eager, 1)
+NAMES = ['annotated', 'annotated_ret', 'eager', 'ret_only', 'one', 'fwd', 'fwd2', 'C.meth', 'c.meth', 'part']
+'''
+
+HOSTILE_SRC_POST = '''from __future__ import annotations
+SHAPE = Value(3, 4)
+def post(v: SHAPE, *, k: Value(5) = None) -> int: pass
+def post_ret(a, b: int = 1) -> SHAPE: pass
+def fwd(x, *args, **kwargs):
+    return post(*args, **kwargs)
+NAMES = ['post', 'post_ret', 'fwd']
+'''
+
+_HOSTILE = {}
+
+
+def hostile_modules():
+    if _HOSTILE:
+        return _HOSTILE
+    tmp = tempfile.mkdtemp(prefix='verif-c14-')
+    _TMP.append(tmp)
+    for cls_ in (Elementwise, Expr):
+        for tag, src in (('eager', HOSTILE_SRC_EAGER), ('post', HOSTILE_SRC_POST)):
+            modname = 'c14_hostile_%s_%s' % (tag, cls_.__name__.lower())
+            path = os.path.join(tmp, modname + '.py')
+            with open(path, 'w') as f:
+                f.write(src)
+            spec = importlib.util.spec_from_file_location(modname, path)
+            mod = importlib.util.module_from_spec(spec)
+            mod.Value = cls_
+            sys.modules[modname] = mod
+            with warnings.catch_warnings():
+                warnings.simplefilter('ignore')
+                spec.loader.exec_module(mod)
+            _HOSTILE[modname] = mod
+    return _HOSTILE
+
+
+def hostile_names():
+    out = [(modname, nm) for modname, mod in hostile_modules().items() for nm in mod.NAMES]
+    return out + [('built', '%s:%s' % (c, nm)) for c in ('Elementwise', 'Expr') for nm in ('pre', 'post', 'falsy-free')]
+
+
+def hostile_get(modname, nm):
+    import sigtools
+    if modname == 'built':
+        cname, what = nm.split(':')
+        V = {'Elementwise': Elementwise, 'Expr': Expr}[cname]
+        f = fn_of(100)
+        f.__globals__['c14_hostile_' + cname] = V
+        v = V(3, 4)
+        if what == 'pre':
+            ps = [UP('a', P.POSITIONAL_OR_KEYWORD, annotation=v, upgraded_annotation=S._PreEvaluatedAnnotation(v),
+                     function=f, sources=[f]),
+                  UP('k', P.KEYWORD_ONLY, default=None, annotation=v, upgraded_annotation=S._PreEvaluatedAnnotation(v))]
+            return US(ps, return_annotation=11, upgraded_return_annotation=S._PreEvaluatedAnnotation(11),
+                      sources={'a': [f], '+depths': {f: 0}})
+        if what == 'post':
+            raw = 'c14_hostile_%s(3, 4)' % cname
+            ps = [UP('a', P.POSITIONAL_ONLY, annotation=raw, upgraded_annotation=S._PostponedAnnotation(raw, f),
+                     function=f, sources=[f])]
+            return US(ps, sources={'a': [f], '+depths': {f: 0}})
+        # plain data well-behaved, only the upgraded annotation is of the hostile kind
+        ps = [UP('a', P.POSITIONAL_OR_KEYWORD, annotation=11, upgraded_annotation=S._PreEvaluatedAnnotation(v))]
+        return US(ps, return_annotation=12, upgraded_return_annotation=S._PreEvaluatedAnnotation(V(1)))
+    obj = hostile_modules()[modname]
+    for part in nm.split('.'):
+        obj = getattr(obj, part)
+    with warnings.catch_warnings():
+        warnings.simplefilter('ignore')
+        return sigtools.signature(obj)
+
+
+def _twin_value(v):
+    """an equal-looking but distinct value of the hostile kinds"""
+    if isinstance(v, (Elementwise, Expr)):
+        return type(v)(*v.items)
+    return v
+
+
+def _plain_of(o, memo):
+    """the plain counterpart, keeping the sharing of objects (the same object -> the same counterpart)"""
+    if id(o) in memo:
+        return memo[id(o)][1]
+    if isinstance(o, inspect.Signature):
+        r = inspect.Signature([_plain_of(p, memo) for p in o.parameters.values()], return_annotation=o.return_annotation)
+    elif isinstance(o, inspect.Parameter):
+        r = plain_param_of(o)
+    else:
+        r = o
+    memo[id(o)] = (o, r)
+    return r
+
+
+def drop_in_bad(a, b, what):
+    """(a, b) must answer what (plain(a), plain(b)) answer whenever those answer without raising"""
+    memo = {}
+    pa, pb = _plain_of(a, memo), _plain_of(b, memo)
+    bad = []
+    for lab, th, ref in (('a == b', lambda: a == b, lambda: pa == pb), ('b == a', lambda: b == a, lambda: pb == pa),
+                         ('a != b', lambda: a != b, lambda: pa != pb), ('b != a', lambda: b != a, lambda: pb != pa)):
+        want = cmp_out(ref)
+        if want[0] == 'R':
+            continue          # the plain inspect objects propagate the value's exception too
+        got = cmp_out(th)
+        if got[0] == want[0] or (want[0] == 'X' and got[0] in 'TF'):
+            continue          # answering a bool where inspect hands back the value's own answer is fine
+        if want[0] in 'TF' and got[0] in 'XR' and nonbool_upgraded_values(a, b):
+            # the plain data compare as a bool (strings of postponed annotations, identical objects),
+            # the values of the upgraded annotations do not
+            bad.append(('C14:eq-nonbool-annotation-value', '%s: %s %s; the plain counterparts answer %s (the == of the '
+                        'evaluated upgraded annotations does not answer a bool, and its answer is handed back / truth-tested)' % (
+                            what, lab, 'raised ' + got[1] if got[0] == 'R' else got[1], want[0])))
+        elif got[0] == 'R':
+            bad.append(('C14:eq-raises', '%s: %s raised %s; the plain counterparts answer %s' % (
+                what, lab, got[1], want[1] or want[0])))
+        else:
+            bad.append(('C14:eq-plain-counterpart', '%s: %s gave %s %s; the plain counterparts answer %s' % (
+                what, lab, got[0], got[1] or '', want[1] or want[0])))
+    return bad
+
+
+def nonbool_upgraded_values(a, b):
+    """do a and b carry, at the same place, upgraded annotations whose evaluated values' == is not a bool?"""
+    if isinstance(a, US) and isinstance(b, US):
+        pairs = [(a.upgraded_return_annotation, b.upgraded_return_annotation)]
+        pairs += [(p.upgraded_annotation, b.parameters[n].upgraded_annotation) for n, p in a.parameters.items()
+                  if isinstance(p, UP) and isinstance(b.parameters.get(n), UP)]
+    elif isinstance(a, UP) and isinstance(b, UP):
+        pairs = [(a.upgraded_annotation, b.upgraded_annotation)]
+    else:
+        return False
+    for x, y in pairs:
+        try:
+            if type(x.source_value() == y.source_value()) is not bool:
+                return True
+        except Exception:  # noqa: BLE001
+            pass
+    return False
+
+
+def decide_hostile(modname, nm):
+    """Section H on one named object.  -> (n_checks, [(key, what)])"""
+    x, y = hostile_get(modname, nm), hostile_get(modname, nm)
+    what = 'sigtools.signature(%s.%s)' % (modname, nm) if modname != 'built' else 'built signature %s' % nm
+    bad, n = [], 0
+    for p in x.parameters.values():
+        pw = '%s.parameters[%r] (annotation %r)' % (what, p.name, p.annotation)
+        partners = [('itself', p), ('its plain counterpart', plain_param_of(p)),
+                    ('a plain parameter with an equal-looking annotation',
+                     P(p.name, p.kind, default=p.default, annotation=_twin_value(p.annotation))),
+                    ('replace()', p.replace()),
+                    ('replace(annotation=equal-looking)', p.replace(annotation=_twin_value(p.annotation))),
+                    ('the same parameter of a second retrieval', y.parameters[p.name]),
+                    ('replace(name=...)', p.replace(name='zz')),
+                    ('None', None), ('a string', str(p))]
+        for lab, b in partners:
+            bad += drop_in_bad(p, b, '%s vs %s' % (pw, lab))
+            n += 4
+    partners = [('itself', x), ('its plain counterpart', plain_sig_of(x)), ('replace()', x.replace()),
+                ('a plain signature over the same parameter objects',
+                 inspect.Signature(list(x.parameters.values()), return_annotation=x.return_annotation)),
+                ('replace(return_annotation=equal-looking)', x.replace(return_annotation=_twin_value(x.return_annotation))),
+                ('a second retrieval', y), ('None', None)]
+    for lab, b in partners:
+        bad += drop_in_bad(x, b, '%s vs %s' % (what, lab))
+        n += 4
+    return n, bad
+
+
 # Section F (harness only, OUTSIDE the model's value domain: the model interns
 # evaluated annotations as numbers whose == is reflexive and stable): annotations
 # whose value is not equal to a second evaluation of itself -- a postponed
@@ -794,6 +1189,7 @@ def real_modules():
         sys.modules[modname] = mod
         spec.loader.exec_module(mod)
         _REAL[modname] = mod
+    _REAL.update(load_twins(tmp))
     return _REAL
 
 
@@ -837,10 +1233,15 @@ def real_specs():
 
 # ------------------------------------------------------------------ comparing
 def cmp_out(th):
+    """one comparison, run the way sigtools' own suite runs (pytest.ini: filterwarnings = error,
+    i.e. python -W error): a comparison that emits a warning raises there, and raises a
+    TypeError on the Python versions where the deprecated behaviour is gone"""
     try:
         with warnings.catch_warnings():
-            warnings.simplefilter('ignore')
+            warnings.simplefilter('error')
             r = th()
+    except Warning as e:
+        return 'R', '%s: %s  [a warning emitted by the comparison; warnings are escalated to errors as by python -W error / sigtools\' pytest.ini]' % (type(e).__name__, e)
     except Exception as e:  # noqa: BLE001
         return 'R', '%s: %s' % (type(e).__name__, e)
     if r is True:
@@ -1013,6 +1414,8 @@ def param_variants(p):
         u = p['ua']['u']
         alts = [('P', 11), ('P', 12), ('D', 1, 100), ('D', 2, 100), ('D', 2, 101), ('D', 3, 100), ('D', 3, 101), ('D', 3, 103), ('E',)]
         alts += [('D', r, 100) for r in BAD_RAWS] + [('D', 23, 101)]
+        if u[0] == 'D' and u[2] in TWIN_FN:
+            alts.append(('D', u[1], TWIN_FN[u[2]]))         # the same annotation in the twin namespace
         for alt in alts:
             if alt != u:
                 out.append(('upgraded_annotation', copy_p(p, ua=A(alt))))
@@ -1030,7 +1433,8 @@ def sig_variants(rng, s, limit):
             t['params'][i] = dict(q, id=fresh())
             out.append(('param.' + lab, t))
     out.append(('return_annotation', copy_s(s, ret=13 if s['ret'] != 13 else 14)))
-    for alt in [('P', 11), ('P', 12), ('D', 1, 100), ('D', 2, 101), ('D', 3, 100), ('D', 3, 103), ('E',)] + [('D', r, 100) for r in BAD_RAWS]:
+    twin = [('D', s['ur']['u'][1], TWIN_FN[s['ur']['u'][2]])] if s['ur']['u'][0] == 'D' and s['ur']['u'][2] in TWIN_FN else []
+    for alt in [('P', 11), ('P', 12), ('D', 1, 100), ('D', 2, 101), ('D', 3, 100), ('D', 3, 103), ('E',)] + [('D', r, 100) for r in BAD_RAWS] + twin:
         if alt != s['ur']['u']:
             out.append(('upgraded_return_annotation', copy_s(s, ur=A(alt))))
     out.append(('sources', copy_s(s, srcs={}, deps={})))
@@ -1064,7 +1468,7 @@ def partners_for_sig(rng, s, limit):
         out.append(('upgraded:' + lab, t))
         if rng.random() < 0.35:
             out.append(('plain:' + lab, copy_s(t, up=False, param_up=False)))
-    for fk in FOREIGN_KINDS:
+    for fk in foreign_kinds('s'):
         out.append(('foreign:' + fk, {'id': fresh(), 'foreign': fk}))
     if s['params']:
         out.append(('own-parameter', None))
@@ -1563,9 +1967,12 @@ def run(ctx, rep):
         mod, nm, var = r['real']
         partners = [('itself', r), ('second-retrieval', {'real': (mod, nm, 'r1' if var == 'r0' else 'r0')}),
                     ('inspect.signature', {'real': (mod, nm, 'inspect')})]
+        if mod in TWIN_OF:
+            partners += [('twin-namespace', {'real': (TWIN_OF[mod], nm, 'r0')}),
+                         ('twin-namespace:inspect.signature', {'real': (TWIN_OF[mod], nm, 'inspect')})]
         others = [x for x in reals if x['real'][1] != nm]
         partners += [('other:' + x['real'][1], x) for x in rng.sample(others, min(6, len(others)))]
-        partners += [('foreign:' + fk, {'id': fresh(), 'foreign': fk}) for fk in FOREIGN_KINDS]
+        partners += [('foreign:' + fk, {'id': fresh(), 'foreign': fk}) for fk in foreign_kinds('s')]
         d = describe_sig(resolve_real(r))
         for lab, t in sig_variants(rng, d, 8):
             partners.append(('upgraded:' + lab, t))
@@ -1588,7 +1995,9 @@ def run(ctx, rep):
         seen.add(key)
         plist.append(p)
     if ctx.quick and len(plist) > 160:
-        plist = rng.sample(plist, 160)
+        keep = [p for p in plist if p['ua']['u'][0] == 'D' and p['ua']['u'][2] in TWIN_FN]
+        rest = [p for p in plist if not any(p is k for k in keep)]
+        plist = rng.sample(rest, min(160, len(rest))) + keep
     for p in plist:
         o = build_param(p, {})
         if p['up']:
@@ -1607,15 +2016,44 @@ def run(ctx, rep):
                 partners.append(('upgraded:' + lab, q))
                 if lab in ('name', 'kind', 'default', 'annotation'):
                     partners.append(('plain:' + lab, copy_p(q, up=False)))
-        for fk in FOREIGN_KINDS:
+        for fk in foreign_kinds('p'):
             partners.append(('foreign:' + fk, {'id': fresh(), 'foreign': fk}))
         for lab, q in partners:
             outs = eq_case(rep, p, q, lab, 'p', qterms, qmetas, hist)
             evaluations += 1
             if 'foreign' in q or (outs[0] == 'T' and q is not p) or (outs[0] == 'F' and not q.get('up', True)):
                 rep.distinct.add(('Q', p['id'], lab))
+    # ---- G: twin namespaces (built objects; the really retrieved ones went through E and Q)
+    n_twin = 0
+    for fam, fa, fb in twin_pairs():
+        for raw in [3, intern_str('Ctx')] + BAD_RAWS:
+            for level, a_d, b_d, lab in twin_cases(raw, fa, fb):
+                eq_case(rep, a_d, b_d, 'twin-namespace[%s]:%s' % (fam, lab), level,
+                        eterms if level == 's' else qterms, emetas if level == 's' else qmetas, hist)
+                evaluations += 1
+                n_twin += 1
+                rep.distinct.add(('G', fam, raw, level, lab))
+    rep.coverage['twin_namespace_pairs'] = n_twin
     termlists.append(('ok_peq', qterms))
     termlists.append(('ok_phash', phterms))
+
+    # ---- H: annotation values whose own == does not answer a bool (harness only, no model)
+    n_hostile = 0
+    hostile_failed = []
+    for modname, nm in hostile_names():
+        try:
+            n, bad = decide_hostile(modname, nm)
+        except Exception as e:  # noqa: BLE001  (retrieval itself is C07's subject)
+            hostile_failed.append('%s.%s: %s: %s' % (modname, nm, type(e).__name__, e))
+            continue
+        n_hostile += n
+        evaluations += n
+        rep.distinct.add(('H', modname, nm))
+        for key, what in bad:
+            hist[key] = hist.get(key, 0) + 1
+            _viol(rep, key, what, {'kind': 'hostile', 'module': modname, 'name': nm})
+    rep.coverage['hostile_annotation_checks'] = n_hostile
+    rep.coverage['hostile_retrieval_failed'] = hostile_failed
 
     # ---- F: values not equal to a re-evaluation of themselves (harness only, no model)
     n_fresh = 0
@@ -1783,6 +2221,7 @@ def replay(ctx, data):
 def _replay_bad(r):
     kind = r['kind']
     reg = {}
+    real_modules()           # registers the functions of the twin namespaces under their fixed ids
     if kind == 'pair':
         a = build_obj(r['a'], reg)
         if r['b'].get('own-parameter'):
@@ -1797,6 +2236,8 @@ def _replay_bad(r):
         return [(k, w) for k, w, s in decide_bind(o)[1]] + bound_eq_bad(o, 'sig', limit=4)
     if kind == 'fresh':
         return decide_fresh(r['module'], r['name'])[1]
+    if kind == 'hostile':
+        return decide_hostile(r['module'], r['name'])[1]
     if kind == 'sreplace':
         args = dict(r['args'])
         if 'sources' in args:
